@@ -79,6 +79,12 @@ class Out:
 '''
 
 MODULES = ["a.py", "b.py", "pkg/c.py"]
+PK2_SRC = "def helper():\n    return 1\n\n\nVALUE = helper()\n"
+# requests of these kinds cannot be honoured whatever the offset: the destination of a move is the
+# defining module itself (addressed as file, dotted name or package folder), does not exist, or is a
+# plain folder.  Only a refusal is accepted for them (RefusesImpossible).
+IMPOSSIBLE_KINDS = ["move_same_file", "move_same_dotted", "move_same_pkgfolder", "move_to_missing",
+                    "move_to_plain_folder"]
 
 
 def make_fixture(base):
@@ -86,12 +92,13 @@ def make_fixture(base):
     sib = os.path.join(base, "sibling")
     os.makedirs(os.path.join(root, "pkg"))
     os.makedirs(os.path.join(root, "ign"))
+    os.makedirs(os.path.join(root, "pk2"))
     os.makedirs(os.path.join(root, "stale", "__pycache__"))
     os.makedirs(sib)
     with open(os.path.join(root, "stale", "__pycache__", "old.txt"), "w") as f:
         f.write("left over\n")
     for rel, text in (("a.py", A_SRC), ("b.py", B_SRC), ("pkg/__init__.py", ""), ("pkg/c.py", C_SRC),
-                      ("ign/ig.py", IG_SRC)):
+                      ("ign/ig.py", IG_SRC), ("pk2/__init__.py", PK2_SRC)):
         with open(os.path.join(root, rel), "w") as f:
             f.write(text)
     with open(os.path.join(sib, "outmod.py"), "w") as f:
@@ -187,6 +194,30 @@ def build_request(project, kind, res, off):
     if kind == "move":
         dest = project.get_resource("b.py") if res.path != "b.py" else project.get_resource("a.py")
         return lambda: move.create_move(project, res, off).get_changes(dest)
+    if kind in IMPOSSIBLE_KINDS:
+        def req_impossible():
+            mover = move.create_move(project, res, off)
+            if not isinstance(mover, move.MoveGlobal):
+                return None
+            # the module that defines the element under the cursor (not necessarily the one being edited)
+            src_mod = mover.source
+            if src_mod is None:
+                return None
+            if kind == "move_same_file":
+                dest = src_mod
+            elif kind == "move_same_dotted":
+                from rope.base import libutils
+                dest = libutils.modname(src_mod)
+            elif kind == "move_same_pkgfolder":
+                if src_mod.name != "__init__.py":
+                    return None
+                dest = src_mod.parent
+            elif kind == "move_to_missing":
+                dest = "nosuch.module"
+            else:
+                dest = project.get_resource("stale")
+            return mover.get_changes(dest)
+        return req_impossible
     if kind == "move_method":
         def req():
             mover = move.create_move(project, res, off)
@@ -289,7 +320,8 @@ def run_batch(arg):
             before = state["snap"]
             src = before[os.path.join("proj", modrel.replace("/", os.sep))][0].decode()
             tc = token_class(src, off) if off is not None else "module"
-            tr = {"kind": kind, "module": modrel, "offset": off, "token": tc, "variant": variant, "events": []}
+            tr = {"kind": kind, "module": modrel, "offset": off, "token": tc, "variant": variant, "events": [],
+                  "impossible": kind in IMPOSSIBLE_KINDS}
             changes = None
             exc = None
             try:
@@ -478,7 +510,7 @@ def main(tier):
     cfg = os.path.join(common.SCRATCH_BASE, "c09_%d.cfg" % os.getpid())
     tlc.write_cfg(cfg, constants={"Files": tlc.Sub("MCFiles"), "RegionOf": tlc.Sub("MCRegion"),
                                   "ErrClasses": {"rope", "internal"}},
-                  invariants=["InsideProject"],
+                  invariants=["InsideProject", "RefusesImpossible"],
                   properties=["PureCompute", "OnlyAnnounced", "PreviewMatches", "RefusalClean"])
     res = tlc.run("MC_RopeEffects", cfg, workers=2)
     os.unlink(cfg)
@@ -488,7 +520,7 @@ def main(tier):
         print("MACHINERY-FAILURE property=%s TLC RopeEffects: %s %s\n%s" % (PROP, res.violated, res.error, res.tail))
         return 2
     states, trans = res.distinct, res.generated
-    srcs = {"a.py": A_SRC, "b.py": B_SRC, "pkg/c.py": C_SRC}
+    srcs = {"a.py": A_SRC, "b.py": B_SRC, "pkg/c.py": C_SRC, "pk2/__init__.py": PK2_SRC}
     rnd = common.rng("c09")
     batches = []
     for m in MODULES:
@@ -505,6 +537,14 @@ def main(tier):
                 batches.append((m, kind, sel[k:k + 40]))
         for kind in MODULE_KINDS:
             batches.append((m, kind, [None]))
+    # requests that cannot be honoured: every offset of every module (and of a package's __init__.py)
+    for m in MODULES + ["pk2/__init__.py"]:
+        offs = list(range(len(srcs[m]) + 1))
+        for kind in IMPOSSIBLE_KINDS:
+            if kind == "move_same_pkgfolder" and not m.endswith("__init__.py"):
+                continue
+            for k in range(0, len(offs), 60):
+                batches.append((m, kind, offs[k:k + 60]))
     # multi-step histories before the request
     offs_a = list(range(len(A_SRC) + 1))
     for kind in ("rename", "change_signature", "inline", "move", "encapsulate_field", "introduce_factory"):
@@ -527,7 +567,8 @@ def main(tier):
     import re
     failures = []
     if traces:
-        batch = {"traces": [{"events": [{"ev": e["ev"], "changed": e.get("changed", []),
+        batch = {"traces": [{"impossible": bool(t.get("impossible")),
+                             "events": [{"ev": e["ev"], "changed": e.get("changed", []),
                                          "announced": e.get("announced", []),
                                          "unpreviewed": e.get("unpreviewed", []), "err": e.get("err", "none")}
                                         for e in t["events"]]} for t in traces]}
@@ -571,6 +612,11 @@ def main(tier):
     performed = sum(1 for t in traces if t["events"][-1]["ev"] == "perform")
     refused = sum(1 for t in traces if t["events"][-1]["ev"] == "refuse")
     kinds_performed = sorted({t["kind"] for t in traces if t["events"][-1]["ev"] == "perform"})
+    impossible_reached = sum(1 for t in traces if t.get("impossible") and t["events"][-1]["ev"] == "refuse"
+                             and ("destination" in (t["events"][-1].get("msg") or "")
+                                  or "same module" in (t["events"][-1].get("msg") or "")))
+    if impossible_reached < 10 and not verdict.violations:
+        verdict.machinery_failure("only %d impossible requests reached the destination checks: vacuous" % impossible_reached)
     if performed < 50:
         verdict.machinery_failure("only %d requests were performed: vacuous" % performed)
     samples = [t for t in traces if t["events"][-1]["ev"] == "perform"][:2] + \
@@ -581,6 +627,7 @@ def main(tier):
         "traces_validated_against_impl": len(traces),
         "traces_accepted": accepted,
         "requests_performed": performed, "requests_refused": refused,
+        "impossible_requests_refused_at_destination_checks": impossible_reached,
         "kinds_with_a_performed_request": kinds_performed,
         "distinct_nontrivial": performed,
         "samples": samples,
